@@ -4,6 +4,10 @@
 
    A record (strings are byte strings carried as code points 0..255; values are in the observation
    form of GrolValues: [t, v] / [t, e] / [t, p]):
+     k              "case": a saved environment, all of the fields below are judged;
+                    "sess": a history of several sessions sharing one directory (each: auto-load, inputs, auto-save):
+                    b = the data globals the LAST session held when it ended (a name only the fresh session has
+                    carries the value [t |-> "absent"]), a.vals = a fresh session after auto-load; only these are judged
      id, lim        the case and the MaxValueLen it was saved with
      n, lines       what State.SaveGlobals returned and wrote (split at newlines)
      nu, linesu     the same with the limit off (equal to n, lines when lim = 0)
@@ -65,6 +69,7 @@ Flag(ok, tag) == IF ok THEN <<>> ELSE <<tag>>
 PathFails(r, p, tag) == RtFails(r, p, tag) \o CallFails(p, tag) \o Flag(p.idem, StrCat("idem:", tag))
 
 Verdict(r) ==
+  IF r.k = "sess" THEN [id |-> r.id, lim |-> r.lim, fails |-> RtFails(r, r.a, "A")] ELSE
   [id |-> r.id, lim |-> r.lim,
    fails |-> Flag(OneLineOK(r), "oneline") \o Flag(SkippedOK(r), "skipped")
              \o Flag(r.saveext, "saveext") \o Flag(r.autosave, "autosave")
@@ -73,6 +78,7 @@ Verdict(r) ==
 TraceInit ==
   /\ l = 0
   /\ globals = <<>> /\ file = <<>> /\ saved = <<>> /\ phase = "trace" /\ meta = [id |-> "", src |-> "", api |-> <<>>] /\ limit = 0
+  /\ todo = <<>> /\ texts = <<>> /\ dirty = FALSE
 
 TraceNext ==
   /\ l < Len(Trace)
